@@ -653,6 +653,7 @@ def main(tier: str, seed: int, replay: str | None = None) -> int:
     logging.getLogger("rdflib.term").setLevel(logging.ERROR)
     rep = C.Report("C10", tier, seed)
     rep.proof_stage()
+    rep.proof_stage("C10_term")     # expand_canon terminates within an explicit fuel bound; C10 theorems without the 'completed run' hypothesis
     rng = random.Random(seed)
     if "language" in d:
         langs = [Lang.from_json(d["language"])]
